@@ -5,8 +5,9 @@
 (* the real resolver.                                                      *)
 (*                                                                         *)
 (* The size of a tree is the number of its nodes: every statement is one   *)
-(* node, an initialiser that mentions a name is one more node, a function  *)
-(* parameter is one node.  All trees up to a size bound are enumerated for *)
+(* node, an initialiser that mentions a name is one more node, a second    *)
+(* declarator and a function parameter are one node each.  All trees up to *)
+(* a size bound are enumerated for                                         *)
 (* a *vocabulary* (which names may be declared / used / appear in          *)
 (* initialisers, which compound statements exist).  Several vocabularies   *)
 (* are used because the full one explodes at size 5 (see Vocab below).     *)
@@ -110,7 +111,8 @@ Langs(t) == IF \E j \in DOMAIN NamesOfBlock(t) : NamesOfBlock(t)[j] \in {AliasVa
 (***************************************************************************)
 (* Export.  One row per (tree, language): the tree, and per identifier     *)
 (* occurrence (keyed by its path) the expected class:                      *)
-(*   "D<path of the declaration>" | "alias" | "unknown" | "barrier" | "skip"*)
+(*   "D<path of the declaration>" | "alias:v" | "alias:f" | "unknown" |    *)
+(*   "barrier" | "skip" (not determined by the rules, see Scopes!Ambig)    *)
 (* plus the expected errors, and two renamings of the bound names:         *)
 (*   r1: every definition gets its own fresh name (no shadowing remains);  *)
 (*   r2: a |-> p, b |-> q, ALIAS |-> r on bound occurrences (the shadowing  *)
